@@ -218,7 +218,10 @@ class Driver:
             for fu in futs:
                 index, sc, out = fu.result()
                 core = {k: out.get(k) for k in ('status', 'vclass', 'signature', 'trace_digest', 'distinct_key', 'faults', 'probes', 'sim_time', 'steps')}
-                print(json.dumps({'index': index, 'scenario': prng.short(sc), 'outcome': prng.short(core), 'status': out['status']}))
+                line = {'index': index, 'scenario': prng.short(sc), 'outcome': prng.short(core), 'status': out['status']}
+                if os.environ.get('VERIF_DIGEST_CORE'):
+                    line['core'] = dict(core, distinct_keys=out.get('distinct_keys'))
+                print(json.dumps(line, sort_keys=True, default=str))
         return 0
 
     # ------------------------------------------------------------------
